@@ -37,11 +37,16 @@ MIN_NONTRIVIAL = {'quick': 4000, 'thorough': 100000}
 REQUIRED_MONITORS = ['forced:init-keyword', 'forced:config',
                      'forced:config-object-reused',
                      'forced:parse-argument', 'fallback', 'no-two-full',
+                     'forced:keyword-over-config-layout',
                      'hook:ChunkParser.__init__', 'hook:parse_safe']
 
 EXTRA_CFG = ['', '', '', 'segment', 'sec_within', 'segment,sec_within',
              'sec_colon_required', 'sec_colon_cautious', 'ocr_scrub',
              's,e', 'parse_qq', 'clean_qq,parse_qq']
+
+
+LAYOUT_CFG = ['TRS_desc', 'desc_STR,parse_qq', 'layout.S_desc_TR,n,w',
+              'TR_desc_S,segment']
 
 
 def plan(tier, seed):
@@ -118,6 +123,8 @@ def run_forced(case, ctx, rec, pytrs):
                     tracts = d.parse(layout='copy_all', commit=False)
                     pp, cur = d.preprocess(), 'copy_all'
                 ctx.hit(f'forced:{channel}')
+                if extra in LAYOUT_CFG:
+                    ctx.hit('forced:keyword-over-config-layout')
                 handed = [e['layout'] for e in rec.of('plssparser_init')]
                 chunk_layouts = [e['layout'] for e in rec.of('chunk_init')]
                 wit = {'layout_to_PLSSParser': handed,
@@ -231,6 +238,11 @@ def run_shard(shard, ctx):
                     'channel': rng.choice(['init-keyword', 'config',
                                            'parse-argument',
                                            'config-object-reused'])}
+            if case['channel'] in ('init-keyword', 'parse-argument') \
+                    and rng.random() < 0.2:
+                # the config names another layout: the keyword / argument
+                # still decides
+                case['extra'] = rng.choice(LAYOUT_CFG)
             run_forced(case, ctx, rec, pytrs)
         else:
             run_fallback(gen_fallback(rng), ctx, rec, pytrs)
